@@ -10,6 +10,15 @@ from abmarl.sim import is_agent
 from .sar_wrapper import SARWrapper
 
 
+def _is_declared(null_point):
+    """
+    The empty dict stands for "no null point was given". Any other value was declared,
+    also one that is falsy (0, an all-zero list) or whose truth value is ambiguous
+    (a numpy array with more than one element).
+    """
+    return not (type(null_point) is dict and len(null_point) == 0)
+
+
 def _ravel_helper(space, point):
     if isinstance(space, Discrete):
         return point, space.n
@@ -167,12 +176,12 @@ class RavelDiscreteWrapper(SARWrapper):
                 f"{agent_id} action must be discretizable."
             self.agents[agent_id].observation_space = ravel_space(wrapped_agent.observation_space)
             self.agents[agent_id].action_space = ravel_space(wrapped_agent.action_space)
-            if self.agents[agent_id].null_observation:
+            if _is_declared(self.agents[agent_id].null_observation):
                 self.agents[agent_id].null_observation = ravel(
                     self.sim.agents[agent_id].observation_space,
                     wrapped_agent.null_observation
                 )
-            if self.agents[agent_id].null_action:
+            if _is_declared(self.agents[agent_id].null_action):
                 self.agents[agent_id].null_action = ravel(
                     self.sim.agents[agent_id].action_space,
                     wrapped_agent.null_action
